@@ -478,4 +478,46 @@ example :
          (2, true, 0, 0), (0, true, 0, 0), (0, false, 1, 1)] := by
   decide
 
+/-! ## framer periods (`framer x be active at Q`): the framer is run, and its clocks move, only in the
+ticks the Skedder's `retime` rule selects; every theorem above holds for the stamps it is run at
+(they quantify over all stamp lists), and in exact time those stamps are -/
+
+/-- period 0 (the default): run in every tick -/
+theorem C11_framer_period_zero (P : Int) (hP : 0 ≤ P) (n : Nat) : framerStamps P 0 n = stamps P n := by
+  unfold framerStamps
+  rw [runsAt_zero_period P hP n 0 (by omega)]
+  unfold stamps
+  have e : ∀ m : Nat, List.replicate m true = (List.range m).map (fun _ => true) := by
+    intro m
+    induction m with
+    | zero => rfl
+    | succ m ih => rw [List.range_succ, List.map_append, ← ih, List.replicate_succ']; rfl
+  rw [e n, zip_filterMap_flag (List.range n) (stampAt P) (fun _ => true)]
+  congr 1
+  exact List.filter_eq_self.2 (fun _ _ => rfl)
+
+/-- **a framer whose period is a whole number `k ≥ 1` of ticks is run exactly in the ticks divisible by
+`k`** (every tick period `P > 0`) … -/
+theorem C11_framer_period_runs (P : Int) (hP : 0 < P) (k : Nat) (hk : 1 ≤ k) (n : Nat) :
+    runsAt P ((k : Int) * P) n 0 0 = (List.range n).map (fun i => decide (k ∣ i)) := by
+  have := runsAt_multiple P hP k n 0 0 (by omega) (by omega)
+  simpa using this
+
+/-- … so the stamps its clocks see are `0, kP, 2kP, …`: its elapsed advances `kP` per iteration and
+`recurred` counts runs, `timeout T` leaves `max 1 ⌈T/(kP)⌉` runs after entry (`C11_timeout_tick_exact`
+with period `kP`) -/
+theorem C11_framer_period_stamps (P : Int) (hP : 0 < P) (k : Nat) (hk : 1 ≤ k) (n : Nat) :
+    framerStamps P ((k : Int) * P) n = ((List.range n).filter (fun i => decide (k ∣ i))).map (fun (i : Nat) => (i : Int) * P) := by
+  unfold framerStamps
+  rw [C11_framer_period_runs P hP k hk n]
+  unfold stamps
+  have e : (List.range n).map (stampAt P) = (List.range n).map (fun (i : Nat) => (i : Int) * P) := by
+    apply List.map_congr_left; intro i _; exact stampAt_int P i
+  rw [e]
+  exact zip_filterMap_flag (List.range n) (fun (i : Nat) => (i : Int) * P) (fun i => decide (k ∣ i))
+
+/-- non-vacuity: tick period 2, framer period 6: run at 0, 6, 12, 18 of the first 10 ticks -/
+example : framerStamps (2 : Int) 6 10 = [0, 6, 12, 18] ∧ framerStamps (2 : Int) 3 6 = [0, 4, 6, 10] := by
+  decide
+
 end Ioflo.FloClock
